@@ -47,6 +47,12 @@ def tasks(tier, seed, pid='C05'):
             for first in range(len(chain_shapes(L))):
                 ts.append(dict(name=f'chains0_L{L}_k{k}_ids{len(ids)}_first{first}', kind='chains', L=L, k=k, ids=ids,
                                ordered=True, first=first, charges=False, cut=None))
+    # MPO conversion of ARBITRARY consistent layered graphs (parallel edges with equal operator ids, multi-operator edges, node ids
+    # in arbitrary order across layers) -- not only of graphs that from_opchains produces
+    for widths, fam in ([((), 'par'), ((1,), 'rich'), ((2,), 'rich'), ((1, 1), 'plain')] + ([] if tier == 'quick' else [((2, 1), 'plain'), ((1, 2), 'rich')])):
+        for order in ('natural', 'reversed', 'interleaved'):
+            ts.append(dict(name=f'opgraph_w{"".join(map(str, widths)) or "0"}_{fam}_{order}', kind='opgraph', widths=widths, fam=fam, order=order,
+                           L=len(widths) + 1, k=0, ids=(0, 1), cut=4 if widths else None))
     # MPO conversion with charge-compatible operators (shift ids: 0 neutral, 1 raises, 2 lowers)
     for L in ((1, 2, 3) if tier == 'quick' else (1, 2, 3, 4)):
         for k in (1, 2):
@@ -55,7 +61,7 @@ def tasks(tier, seed, pid='C05'):
 
 
 def required_marks(tier):
-    return ['coeff_zero_chain_dropped', 'trailing_coeff_absorbed', 'duplicate_chains', 'mpo_matrix_checked', 'nid_map_checked']
+    return ['coeff_zero_chain_dropped', 'trailing_coeff_absorbed', 'duplicate_chains', 'mpo_matrix_checked', 'nid_map_checked', 'parallel_edges_same_operator']
 
 
 def build_skeleton(eng, task):
@@ -84,9 +90,39 @@ def coeff_status(eng, c):
     return k     # True: non-zero on this path, False: zero, None: undecided
 
 
+def path_opgraph(eng, acc, task):
+    from harness.c16 import gen_graph, graph_to_json
+    widths = task['widths']
+    nn = 2 + sum(widths)
+    if task['order'] == 'natural':
+        nids = list(range(nn))
+    elif task['order'] == 'reversed':
+        nids = list(reversed(range(nn)))
+    else:
+        nids = [(7 * i + 3) % (nn + 3) for i in range(nn)]
+        if len(set(nids)) < nn:
+            nids = [2 * i if i % 2 == 0 else 2 * nn - i for i in range(nn)]
+    g, desc = gen_graph(eng, 'g', widths, task['fam'], nids=nids, qterm=(0, 0))
+    for n in g.nodes.values():
+        n.qnum = 0
+    if not g.is_consistent():
+        raise runner.HarnessError('generated graph inconsistent')
+    words = W.graph_words(g)
+    L = len(widths) + 1
+    inputs = dict(graph=graph_to_json(g))
+    fails = mpo_vcs(eng, acc, g, words, L, (0, 1), [0, 0])
+    if any(len([e for e in g.edges.values() if e.nids == ed.nids and any(o1 == o2 for o1, _ in e.opics for o2, _ in ed.opics)]) > 1 for ed in g.edges.values()):
+        eng.mark('parallel_edges_same_operator')
+    acc.inc('nontrivial_paths')
+    if fails:
+        candidate(eng, acc, task, 'opgraph_mpo', 'opgraph:' + fails[0][:40], '; '.join(fails), inputs)
+
+
 def path(eng, acc, task, focus='C05'):
     if task['kind'] == 'mpo_q':
         return path_mpo_q(eng, acc, task)
+    if task['kind'] == 'opgraph':
+        return path_opgraph(eng, acc, task)
     L = task['L']
     skel = build_skeleton(eng, task)
     chains = []
@@ -281,6 +317,7 @@ def evidence(tier, seed, total, per_task, val, pid='C05'):
             functions_encoded=['OpChain.padded', 'OpGraph.from_opchains', '_site_partition_halfchains', 'minimum_vertex_cover',
                                'OpGraph.is_consistent', 'OpGraph.length', 'MPO.from_opgraph', 'MPO.as_matrix'],
             bounds=dict(plans=sorted({(t['L'], t['k'], len(t['ids'])) for t in ts if t['kind'] == 'chains'}),
+                        opgraph_tasks=[t['name'] for t in ts if t['kind'] == 'opgraph'],
                         note='(L, number of chains, number of operator ids incl. the identity id); chains of every start site '
                              'and length 1..L, identity ids inside chains, duplicates, every list order unless stated',
                         mpo_with_charges=sorted({(t['L'], t['k']) for t in ts if t['kind'] == 'mpo_q'})),
